@@ -37,27 +37,31 @@ def linalg(env):
     env.eq('bmv leaves its arguments untouched', v, v.clone())
 
 
-for with_c in (True, False):
-    def mk(with_c=with_c):
-        @obligation(f'C15.LTI.{"affine" if with_c else "linear"}', functions=[f'{DYN}:LTI.state_transition', f'{DYN}:LTI.observation',
-                                                                             f'{DYN}:System.forward', f'{DYN}:System.forward_hook', f'{DYN}:LTI.forward'])
+LTI_CONTRACTS = {}
+for with_c, kls in ((True, 'LTI'), (False, 'LTI'), (True, 'LTV'), (False, 'LTV'), ('c1 only', 'LTI'), ('c1 only', 'LTV')):
+    def mk(with_c=with_c, kls=kls):
+        @obligation(f'C15.{kls}.{"affine" if with_c is True else ("c1_only" if with_c else "linear")}', functions=[f'{DYN}:LTI.state_transition', f'{DYN}:LTI.observation',
+                                                                             f'{DYN}:System.forward', f'{DYN}:System.forward_hook', f'{DYN}:LTI.forward',
+                                                                             f'{DYN}:{kls}.__init__'])
         def lti(env):
             dyn = env.load(DYN); T = env.T
             A_, B_, C_, D_ = M(env, 'A', 2, 2), M(env, 'B', 2, 1), M(env, 'C', 2, 2), M(env, 'D', 2, 1)
-            c1, c2 = (env.vec('c1', 2), env.vec('c2', 2)) if with_c else (None, None)
-            s = dyn.LTI(A_, B_, C_, D_, c1, c2)
+            c1, c2 = (env.vec('c1', 2), env.vec('c2', 2)) if with_c is True else ((env.vec('c1', 2), None) if with_c else (None, None))
+            s = getattr(dyn, kls)(A_, B_, C_, D_, c1, c2)       # the documented constructor, positional
             x, u = env.vec('x', 2), env.vec('u', 1)
             x0 = x.clone()
             t0 = int(s.systime)
             z, y = s(x, u)
             ez = A_ @ x + B_ @ u; ey = C_ @ x + D_ @ u
-            if with_c: ez, ey = ez + c1, ey + c2
+            if c1 is not None: ez = ez + c1
+            if c2 is not None: ey = ey + c2
             env.eq('next state is A x + B u + c1', z, ez)
             env.eq('observation is C x + D u + c2', y, ey)
             env.holds('time advanced by exactly one', int(s.systime) == t0 + 1)
             env.eq('state argument untouched', x, x0)
             s(z, u)
             env.holds('second call advances again', int(s.systime) == t0 + 2)
+        LTI_CONTRACTS[(kls, with_c)] = lti
     mk()
 
 
@@ -83,6 +87,28 @@ def time_(env):
     env.eq('reset() sets the time to 0', s.systime, 0)
     s.set_refpoint(t=t if env.sym else T.tensor(int(t)))
     env.eq('LTV.set_refpoint(t=..) sets the time', s.systime, t)
+    # the time is the system's own state: assigning it from an int64 tensor the caller keeps (or from another system's clock)
+    # copies the value - later calls neither change that tensor nor are changed through it
+    if env.sym:
+        from pvc import storch as st
+        tt = st._mk(st._T(t)._a.reshape(()).copy(), 'i')
+    else:
+        tt = T.tensor(int(t))
+    s.systime = tt
+    s(x, u)
+    env.eq('a call after systime = tensor leaves the assigned tensor unchanged', tt, t)
+    env.eq('... and advances the system time by one', s.systime, t + 1)
+    s.systime = tt
+    env.eq('re-assigning the same tensor restores the time', s.systime, t)
+    s2 = dyn.LTV(A_, B_, A_, B_)
+    s2.systime = s.systime
+    s(x, u)
+    env.eq('a system whose time was copied from another one does not advance with it', s2.systime, t)
+    s2.reset()
+    env.eq('... and resetting it does not reset the other one', s.systime, t + 1)
+    s.set_refpoint(t=tt)
+    s(x, u)
+    env.eq('LTV.set_refpoint(t=tensor) copies the value too', tt, t)
 
 
 @obligation('C15.LTV.time_indexed', functions=[f'{DYN}:LTV.__init__', f'{DYN}:LTI.state_transition', f'{DYN}:LTI.observation'])
